@@ -391,6 +391,24 @@ def genm_many_checks(ctx):
         meta.append(op)
 
     BAD = [('tuple', lambda l: tuple(l)), ('none', lambda l: None), ('str', lambda l: 'abc'), ('int', lambda l: 5)]
+    # DETERMINISTIC (every seed, no random choice): an existing table name TOGETHER WITH an unreadable input at the same position.
+    # `_create_table` executes CREATE TABLE before read_pdb, so the name wins: sqlite3.OperationalError; the same input under a new name
+    # raises its own error (ValueError for an invalid type / a line that cannot be parsed, IndexError for an empty list of lines)
+    FIX = [[1, 'CA', '', 'ALA', 'A', 1, '', 1.0, 2.0, 3.0, 1.0, 0.0, 'C', 0], [2, 'N', '', 'GLY', 'B', 2, '', 0.5, -1.0, 3.0, 1.0, 0.0, 'N', 0]]
+    good = [B.atom_line(r) for r in FIX]
+    order_cases = []
+    for bad_py, bad_j in ((3.5, {'other': True}), ([], {'lines': []}), (['ATOM  xxxxx  CA  ALA A   1       1.000   2.000   3.000  1.00  0.00           C  '],
+                                                                     {'lines': ['ATOM  xxxxx  CA  ALA A   1       1.000   2.000   3.000  1.00  0.00           C  ']})):
+        for first, second in (('b2', 'B2'), ('a-b', 'a_b'), ('wt', 'wt'), ('b2', 'c3')):
+            for npdb in (2, 4):
+                pf_py = [list(good) for _ in range(npdb - 1)] + [bad_py]
+                pf_j = [{'lines': list(good)} for _ in range(npdb - 1)] + [bad_j]
+                names = (['mutant', first, 'model_10'][:npdb - 1] if npdb == 4 else [first]) + [second]
+                if npdb == 4:
+                    names = ['mutant', first, 'model_10', second]
+                want_dup = (first, second) != ('b2', 'c3')
+                order_cases.append((len(lines), want_dup))
+                add('genm_init', {'pdbfiles': pf_j, 'tablenames': list(names)}, lambda: many2sql(pf_py, tablenames=list(names)))
     n_init = ctx.scale(60, 500)
     for k in range(n_init):
         npdb = rng.choice([1, 1, 2, 2, 3, 4])
@@ -523,6 +541,15 @@ def genm_many_checks(ctx):
                 'ok': bad is None and len(named_real) >= 30 and outcomes.get('ERR:Other:OperationalError', 0) >= 2 and outcomes.get('ERR:IndexError', 0) >= 2,
                 'case': bad, 'detail': 'names as given after the clean-up; an existing name (same / other letter case / equal after the clean-up) = sqlite3.OperationalError; '
                                        'fewer names than structures = IndexError; surplus names ignored', 'kind': 'genm'})
+    bad = None
+    for idx, want_dup in order_cases:
+        g = ans[idx].get('model')
+        ok1 = real[idx] == g and is_err(real[idx]) and (real[idx] == 'ERR:Other:OperationalError') == want_dup
+        if not ok1 and bad is None:
+            bad = {'case': json_short(lines[idx]), 'real code': short(real[idx]), 'generated (Gen/Many.lean)': short(g),
+                   'expected': 'sqlite3.OperationalError (the name exists already)' if want_dup else 'the error of the unreadable input (not OperationalError)'}
+    res.append({'name': f'order inside _create_table (CREATE TABLE before read_pdb): existing name + unreadable input at the same position, {len(order_cases)} fixed inputs at every seed',
+                'ok': bad is None, 'case': bad, 'detail': 'real code = generated; OperationalError exactly when the name exists already', 'kind': 'genm'})
     for opname, label, floor in (('genm_init', 'many2sql.__init__', 40), ('genm_call', 'many2sql.__call__', 40),
                                  ('genm_interface_init', 'interface.__init__', 30), ('genm_convert_input', 'many2sql.convert_input', 8)):
         bad, n, disc, nerr, nexist = None, 0, 0, 0, 0
